@@ -1,8 +1,192 @@
-(* C14 - nsqlookupd answers reflect exactly the live registrations.  Property theorems only. *)
-From Coq Require Import List ZArith NArith.
-From NSQV Require Import model.Judge model.Names model.Lookupd model.LookupSpec.
-Import ListNotations.
+(* C14 - nsqlookupd answers reflect exactly the live registrations.
+   Property theorems only.
 
-Example C14_stub : run init [] = init.
-Proof. reflexivity. Qed.
-Print Assumptions C14_stub.
+   [run init h]     the RegistrationDB model (model/Lookupd.v: registration_db.go + the TCP
+                    and HTTP handlers) after the history h
+   [g_run g_init h] the plain registry (model/LookupSpec.v) after the same history
+   A history is any list of: Identify / Register / Unregister / Ping / Disconnect per
+   connection, the five admin calls with arbitrary (also missing / invalid / wildcard)
+   arguments, and Advance d (time passing).  [op_det] excludes only the tombstone request
+   whose topic argument is the wildcard, whose effect in the Go code depends on map
+   iteration order (reported as an observation; not an nsqadmin request). *)
+From Coq Require Import List ZArith NArith Bool.
+From NSQV Require Import gen.Consts gen.LookupdTables model.Judge model.Names model.Lookupd model.LookupSpec
+  proofs.LookupdBase proofs.LookupdRefine proofs.LookupdShape proofs.LookupdQueries proofs.LookupdCorollaries
+  proofs.LookupProtoProofs.
+Import ListNotations.
+Open Scope Z_scope.
+
+(* ---- refinement: the code's data structure implements the plain registry *)
+Theorem C14_refinement_step : forall s o,
+  wf s -> op_det o = true -> req (abs (fst (step s o))) (g_step (abs s) o).
+Proof. exact refine_step. Qed.
+Print Assumptions C14_refinement_step.
+
+Theorem C14_invariant : wf init /\ forall s o, wf s -> wf (fst (step s o)).
+Proof. exact (conj wf_init wf_step). Qed.
+Print Assumptions C14_invariant.
+
+Theorem C14_refinement_history : forall h,
+  forallb op_det h = true -> req (abs (run init h)) (g_run g_init h).
+Proof. exact refine_history. Qed.
+Print Assumptions C14_refinement_history.
+
+(* ---- equal answers, for every history *)
+Theorem C14_topics : forall h, forallb op_det h = true -> forall t,
+  In t (q_topics (run init h)) <-> topic_listed (g_run g_init h) t = true.
+Proof. exact history_topics. Qed.
+Print Assumptions C14_topics.
+
+Theorem C14_channels : forall h, forallb op_det h = true -> forall t c,
+  is_star t = false ->
+  (In c (q_channels (run init h) t) <-> lookup_channel (g_run g_init h) t c = true).
+Proof. exact history_channels. Qed.
+Print Assumptions C14_channels.
+
+Theorem C14_lookup_found : forall h, forallb op_det h = true -> forall inactive lifetime t,
+  is_star t = false ->
+  (q_lookup inactive lifetime (run init h) t = None <-> lookup_found (g_run g_init h) t = false).
+Proof. exact history_lookup_found. Qed.
+Print Assumptions C14_lookup_found.
+
+Theorem C14_lookup_channels : forall s inactive lifetime t chs ps,
+  q_lookup inactive lifetime s t = Some (chs, ps) -> chs = q_channels s t.
+Proof. exact q_lookup_channels. Qed.
+Print Assumptions C14_lookup_channels.
+
+Theorem C14_lookup_producers : forall h, forallb op_det h = true -> forall inactive lifetime t p,
+  is_star t = false ->
+  (In p (lookup_producers inactive lifetime (run init h) t) <->
+   lookup_found (g_run g_init h) t = true /\ lookup_producer inactive lifetime (g_run g_init h) t p = true).
+Proof. exact history_lookup_producers. Qed.
+Print Assumptions C14_lookup_producers.
+
+Theorem C14_nodes : forall h, forallb op_det h = true -> forall inactive lifetime p,
+  In p (map fst (q_nodes inactive lifetime (run init h))) <-> node_listed inactive (g_run g_init h) p = true.
+Proof. exact history_nodes. Qed.
+Print Assumptions C14_nodes.
+
+Theorem C14_node_topics : forall h, forallb op_det h = true -> forall inactive lifetime p t b,
+  In p (map fst (q_nodes inactive lifetime (run init h))) ->
+  (In (t, b) (node_topics inactive lifetime (run init h) p) <->
+   node_topic (g_run g_init h) p t = true /\ b = node_tomb lifetime (g_run g_init h) p t).
+Proof. exact history_node_topics. Qed.
+Print Assumptions C14_node_topics.
+
+(* no answer lists anything twice *)
+Theorem C14_no_duplicates : forall h, forallb op_det h = true ->
+  NoDup (q_topics (run init h)) /\
+  (forall t, is_star t = false -> NoDup (q_channels (run init h) t)) /\
+  (forall i l t, is_star t = false -> NoDup (lookup_producers i l (run init h) t)).
+Proof.
+  exact (fun h H => conj (history_topics_nodup h) (conj (history_channels_nodup h) (history_lookup_producers_nodup h))).
+Qed.
+Print Assumptions C14_no_duplicates.
+
+(* ---- the property's words: a topic's producers are the connected, recently-pinged nsqds
+   that registered it and are not tombstoned for it *)
+Theorem C14_producer_in_words : forall inactive lifetime r t p,
+  lookup_producer inactive lifetime r t p = true <->
+  (exists c, find_peer p (g_nodes r) = Some c /\ g_now r - c_last c <= inactive) /\
+  registered r p t = true /\
+  ~ (exists at_, g_tomb r t p = Some at_ /\ g_now r - at_ < lifetime).
+Proof. exact lookup_producer_words. Qed.
+Print Assumptions C14_producer_in_words.
+
+(* an nsqd that disconnects is at once gone from every producer list and from /nodes;
+   nobody else is affected; keys (also ephemeral ones) stay *)
+Theorem C14_disconnect_gone : forall r inactive lifetime t p,
+  lookup_producer inactive lifetime (g_disconnect r p) t p = false /\
+  node_listed inactive (g_disconnect r p) p = false.
+Proof. exact (fun r i l t p => conj (disconnect_gone_lookup r i l t p) (disconnect_gone_nodes r i p)). Qed.
+Print Assumptions C14_disconnect_gone.
+
+Theorem C14_disconnect_gone_model : forall s inactive lifetime t p,
+  shape s -> is_star t = false -> ~ In p (lookup_producers inactive lifetime (disconnect s p) t).
+Proof. exact model_disconnect_gone. Qed.
+Print Assumptions C14_disconnect_gone_model.
+
+Theorem C14_disconnect_others : forall r inactive lifetime t p q k,
+  q <> p ->
+  lookup_producer inactive lifetime (g_disconnect r p) t q = lookup_producer inactive lifetime r t q /\
+  g_key (g_disconnect r p) k = g_key r k.
+Proof. exact (fun r i l t p q k H => conj (disconnect_others_untouched r i l t p q H) (disconnect_keeps_keys r p k)). Qed.
+Print Assumptions C14_disconnect_others.
+
+(* a tombstone hides only the named producer for the named topic ... *)
+Theorem C14_tombstone_only_named : forall r t c node u q,
+  bytes_eqb u t && registered r q t && g_node_matches r node q = false ->
+  g_tomb (g_tombstone r (QArgs (Some t) c (Some node))) u q = g_tomb r u q.
+Proof. exact tombstone_only_named. Qed.
+Print Assumptions C14_tombstone_only_named.
+
+Theorem C14_tombstone_keeps_registrations : forall r q k p,
+  g_prod (g_tombstone r q) k p = g_prod r k p /\ g_key (g_tombstone r q) k = g_key r k
+  /\ g_nodes (g_tombstone r q) = g_nodes r.
+Proof. exact tombstone_keeps_registrations. Qed.
+Print Assumptions C14_tombstone_keeps_registrations.
+
+Theorem C14_tombstone_hides : forall r t c node q inactive lifetime,
+  registered r q t = true -> g_node_matches r node q = true -> 0 < lifetime ->
+  lookup_producer inactive lifetime (g_tombstone r (QArgs (Some t) c (Some node))) t q = false.
+Proof. exact tombstone_hides. Qed.
+Print Assumptions C14_tombstone_hides.
+
+(* ... and lapses after the tombstone lifetime or when that producer unregisters the topic
+   (REGISTER alone, or unregistering a channel, does not clear it) *)
+Theorem C14_tombstone_lapses : forall r t q at_ d lifetime,
+  g_tomb r t q = Some at_ -> lifetime <= g_now r + d - at_ ->
+  hidden lifetime (g_step r (Advance d)) t q = false.
+Proof. exact tombstone_lapses. Qed.
+Print Assumptions C14_tombstone_lapses.
+
+Theorem C14_unregister_clears_tombstone : forall r p t,
+  connected r p = true -> check_names t [] = None -> g_tomb (g_unregister r p t []) t p = None.
+Proof. exact unregister_clears. Qed.
+Print Assumptions C14_unregister_clears_tombstone.
+
+Theorem C14_register_keeps_tombstone : forall r p t c u q,
+  connected r p = true -> check_names t c = None -> g_tomb (g_register r p t c) u q = g_tomb r u q.
+Proof. exact register_keeps_tombstones. Qed.
+Print Assumptions C14_register_keeps_tombstone.
+
+(* ephemeral topic keys leave with their last producer's UNREGISTER *)
+Theorem C14_ephemeral_topic : forall r p t,
+  connected r p = true -> check_names t [] = None ->
+  has_ephemeral_suffix t = true -> others r (topic_key t) p = false ->
+  g_key (g_unregister r p t []) (topic_key t) = false.
+Proof. exact ephemeral_topic_leaves_with_last. Qed.
+Print Assumptions C14_ephemeral_topic.
+
+(* the thresholds the daemon runs with by default are the generated ones *)
+Example C14_defaults : lookupd_opt_InactiveProducerTimeout = 300000000000 /\ lookupd_opt_TombstoneLifetime = 45000000000.
+Proof. split; reflexivity. Qed.
+
+(* ---- non-vacuity: a concrete history exercising the cases the unit tests do not reach *)
+Definition t1 : name := [116; 49]%N.
+Definition eph : name := ([101] ++ ephemeral_suffix)%N.
+Definition c1 : name := [99; 49]%N.
+Definition info1 : pinfo := mkInfo [104; 49]%N 4150 4151 [49]%N.
+Definition info2 : pinfo := mkInfo [104; 50]%N 4150 4151 [49]%N.
+Definition node1 : bytes := [104; 49; 58; 52; 49; 53; 49]%N.   (* "h1:4151" *)
+Definition hist : list op :=
+  [Identify 0%N info1; Identify 1%N info2; Register 0%N t1 c1; Register 1%N t1 [];
+   HTombstone (QArgs (Some t1) None (Some node1));    (* hides 0 for t1 *)
+   Register 0%N t1 c1;                                   (* does not clear it *)
+   Advance 44000000000].
+Definition hist2 : list op := hist ++ [Unregister 0%N t1 []; Register 0%N t1 []].
+Definition hist3 : list op := hist ++ [Advance 1000000000].
+Definition hist4 : list op := hist ++ [Advance 300000000000; Ping 1%N].
+Definition hist5 : list op :=
+  [Identify 0%N info1; Identify 1%N info2; Register 0%N eph []; Register 1%N eph []; Unregister 0%N eph []; Disconnect 1%N].
+Definition hist6 : list op := [Identify 0%N info1; Identify 1%N info2; Register 0%N eph []; Register 1%N eph []; Unregister 0%N eph []; Unregister 1%N eph []].
+
+Example C14_witness :
+  forallb op_det hist2 = true /\
+  lookup_producers 300000000000 45000000000 (run init hist) t1 = [1%N] /\        (* tombstoned, re-REGISTER did not help *)
+  lookup_producers 300000000000 45000000000 (run init hist2) t1 = [1%N; 0%N] /\  (* UNREGISTER + REGISTER cleared it *)
+  lookup_producers 300000000000 45000000000 (run init hist3) t1 = [0%N; 1%N] /\  (* the tombstone lapsed at 45 s *)
+  lookup_producers 300000000000 45000000000 (run init hist4) t1 = [1%N] /\       (* 0 not pinged for > 300 s *)
+  q_topics (run init hist5) = [eph] /\                                           (* a disconnect leaves the ephemeral key *)
+  q_topics (run init hist6) = [].                                                (* the last UNREGISTER removes it *)
+Proof. vm_compute. repeat split; reflexivity. Qed.
